@@ -19,6 +19,8 @@ pub(crate) const NONE: usize = Debt::NONE;
 // touched; exactly one atomic step, a CAS (p -> NONE) with Release on success.
 // @harness name=l1_debt_pay props=C02,C01,C10 tier=quick flavour=nostd fn=Debt::pay
 #[cfg_attr(kani, kani::proof)]
+#[cfg_attr(kani, kani::stub(crate::debt::Node::traverse, crate::debt::verif_h::list_h::traverse_unrolled2))]
+#[cfg_attr(kani, kani::stub(crate::debt::LocalNode::help, crate::debt::verif_h::list_h::help_contract))]
 #[cfg_attr(kani, kani::unwind(12))]
 pub(crate) fn l1_debt_pay() {
     let d = Debt::default();
@@ -84,6 +86,8 @@ fn any_content2() -> usize {
 // writer's own node (foreign node empty); the control state of the foreign node is symbolic in both.
 // @harness name=l1_pay_all_foreign props=C02,C01,C09,C12 tier=quick flavour=nostd timeout=1800 fn=Debt::pay_all+Node::traverse+LocalNode::help+Node::reserve_writer
 #[cfg_attr(kani, kani::proof)]
+#[cfg_attr(kani, kani::stub(crate::debt::Node::traverse, crate::debt::verif_h::list_h::traverse_unrolled2))]
+#[cfg_attr(kani, kani::stub(crate::debt::LocalNode::help, crate::debt::verif_h::list_h::help_contract))]
 #[cfg_attr(kani, kani::unwind(12))]
 pub(crate) fn l1_pay_all_foreign() {
     pay_all_contract(true);
@@ -91,6 +95,8 @@ pub(crate) fn l1_pay_all_foreign() {
 }
 // @harness name=l1_pay_all_own props=C02,C01,C09,C12 tier=quick flavour=nostd timeout=1800 fn=Debt::pay_all+Node::traverse+LocalNode::help+Node::reserve_writer
 #[cfg_attr(kani, kani::proof)]
+#[cfg_attr(kani, kani::stub(crate::debt::Node::traverse, crate::debt::verif_h::list_h::traverse_unrolled2))]
+#[cfg_attr(kani, kani::stub(crate::debt::LocalNode::help, crate::debt::verif_h::list_h::help_contract))]
 #[cfg_attr(kani, kani::unwind(12))]
 pub(crate) fn l1_pay_all_own() {
     pay_all_contract(false);
@@ -192,4 +198,29 @@ fn pay_all_contract(foreign_symbolic: bool) {
     let (paid, incs, decs) = (m.lw1_paid, m.lw1_incs, m.lw1_decs);
     vassert!(m.lw1_paid_at_dec == held, "pay_all_final_release_only_after_all_slots_paid");
     vassert!(paid == held && incs == held + 1 && decs == 1, "pay_all_ledger_prepaid_plus_k_minus_one");
+}
+
+
+/// The contract of `Debt::pay_all` (discharged on the real function by l1_pay_all_foreign /
+/// l1_pay_all_own) as an executable stub for its callers' harnesses, for a list that consists of
+/// the calling thread's own node with an idle control word (so no helping): one pre-paid
+/// increment, every slot holding ptr is cleared by the real `Debt::pay` and followed by a new
+/// pre-payment, one final release.
+pub(crate) fn pay_all_stub<T, R>(ptr: *const T::Base, _storage_addr: usize, _replacement: R)
+where
+    T: RefCnt,
+    R: Fn() -> T,
+{
+    let node = LocalNode::with(|l| list_h::local_node(l).unwrap());
+    vassert!(list_h::view(node).helping.control == helping_h::C_IDLE, "pay_all_stub_precondition_own_control_idle");
+    vassert!(list_h::node_next(node).is_null() && list_h::head_raw() as *const Node == node as *const Node, "pay_all_stub_precondition_single_node_list");
+    let val = unsafe { T::from_ptr(ptr) };
+    T::inc(&val);
+    let mut i = 0;
+    while i < 9 {
+        if list_h::any_slot(node, i).pay::<T>(ptr) {
+            T::inc(&val);
+        }
+        i += 1;
+    }
 }
